@@ -28,7 +28,7 @@ def setup(tmp, seed):
     qs = [mk(base), mk(base) + mk(), ['GGGGCCCCGGGG']]              # the last query has an empty signature under every parameter set
     rs = [[base], mk(base), ['CCCCGGGG', 'GGGG'], mk(base), [base]]  # two identical references, one with an empty signature
     qnames = ['query0.fasta', 'sub dir/query,1.fa.gz', 'q.2.fna']
-    rnames = ['ref0.fa', 'r/ref1.fasta.gz', 'ref2', 'ref3.txt', 'other/ref0.fa.fasta']
+    rnames = ['ref0.fa', 'r/ref1.fasta.gz', 'ref2.gz', 'ref3.txt', 'other/ref0.fa.fasta']      # incl. a gzip extension with no FASTA extension before it
     env = dict(q=qs, r=rs, qnames=qnames, rnames=rnames)
     for qi_, (nm, c) in enumerate(zip(qnames, qs)):
         W.write_fasta(os.path.join(tmp, 'qdir', nm), c, gz=nm.endswith('.gz'), mixed=(qi_ == 1))       # one query soft-masked (mixed case)
